@@ -159,7 +159,7 @@ class MoashaRef(Oracle):
         self.rungs = [dict() for _ in range(nb)]  # bracket -> level -> [(trial, vec)] in arrival order
         self.bracket = {}
         self._pending = 0
-        self.stats = {"must": 0, "boundary": 0, "slack": 0}
+        self.last_why = None
 
     # -- lock-step
     def before(self, world, ev):
@@ -176,12 +176,14 @@ class MoashaRef(Oracle):
             elif obs[1] == "resume":
                 return [("moasha:resume-suggested", "MOASHA (a stopping scheduler) suggested to resume a trial")]
             return []
+        self.last_why = None
         if obs[0] != "report":
             return []
         _, t, r, d = obs
         vec = self.canonical(world.last_res[t])
         b = self.bracket[t]
         exp, why, info = self.expected(t, r, vec, b)
+        self.last_why = why + ("-within-layer-slack" if why == "boundary" and "slack" in info else "")
         if d in exp:
             return []
         name = PRIO_NAMES[self.prio[0]]
@@ -208,16 +210,10 @@ class MoashaRef(Oracle):
         pts = [v for _, v in lst]
         a, bb, near = self.ranks(pts)
         if near:
-            self.stats["boundary"] += 1
             return {"CONTINUE", "STOP"}, "near-tie", "scalar priorities within 1e-9"
         exp, why = decision_band(a, bb, n, self.rf)
-        if why == "boundary":
-            self.stats["boundary"] += 1
-        else:
-            self.stats["must"] += 1
-        if bb - a > 1:
-            self.stats["slack"] += 1
-        return exp, why, f"n={n} strictly-better a={a} not-worse b={bb} rf={self.rf} rung {r}: {pts}"
+        slack = " (slack: several points share the layer)" if bb - a > 1 else ""
+        return exp, why, f"n={n} strictly-better a={a} not-worse b={bb} rf={self.rf} rung {r}: {pts}{slack}"
 
     def ranks(self, pts):
         kind, arg = self.prio
@@ -268,7 +264,7 @@ class RungContents(Oracle):
         self.ref = ref
 
     def after(self, world, ev, obs):
-        if obs[0] != "report":
+        if obs[0] not in ("report", "complete"):
             return []
         try:
             impl = []
